@@ -167,3 +167,55 @@ def run_repo_tests(rec, seed=0, nodeid=None, cpu=900, fixed_seed=None):
         rec.counters['repo_test_' + v] += 1
     rec.counters['repo_tests_monitor_evaluations'] += rec.evaluations - before
     rec.classes['repo_test'] += len(plug.outcomes)
+
+
+# ------------------------------------------------------------------ in-place changes of library objects (requery workloads)
+def mutate_in_place(X, seed):
+    """changes the OBSERVABLE content of a library object in place (deterministically from `seed`) and keeps it valid:
+    DFA: toggles one accepting state, retargets one transition; NFA / PDA: toggles one accepting state, adds one move;
+    TM: retargets one transition to a halting state; CFG: drops one rule / moves the start variable.
+    Returns True if something was changed. Monitors that judge a call against the CURRENT content of its argument then
+    expose anything the library remembered about the object from earlier calls."""
+    import random
+    r = random.Random('mutate/%s' % (seed,))
+    name = type(X).__name__
+    try:
+        if name == 'DFA':
+            Q = sorted(X.Q)
+            X.F ^= {r.choice(Q)}
+            keys = sorted(X.delta)
+            if keys:
+                X.delta[r.choice(keys)] = r.choice(Q)
+        elif name == 'NFA':
+            Q = sorted(X.Q)
+            X.F ^= {r.choice(Q)}
+            if X.Sigma:
+                key = (r.choice(Q), r.choice(sorted(X.Sigma) + [X.epsilon]))
+                X.delta[key] = set(X.delta.get(key, set())) | {r.choice(Q)} if r.random() < 0.5 else X.delta.get(key, set())
+                X.delta[key].add(r.choice(Q))
+        elif name == 'PDA':
+            Q = sorted(X.Q)
+            X.F ^= {r.choice(Q)}
+            if X.Sigma:
+                key = (r.choice(Q), r.choice(sorted(X.Sigma)), X.epsilon)
+                if key not in X.delta:
+                    X.delta[key] = set()
+                X.delta[key].add((r.choice(Q), X.epsilon))
+        elif name == 'TM':
+            keys = sorted(X.delta)
+            if not keys:
+                return False
+            k = r.choice(keys)
+            (q, b, d) = X.delta[k]
+            X.delta[k] = (r.choice([X.q_accept, X.q_reject]), b, d)
+        elif name == 'CFG':
+            if len(X.R) >= 2:
+                X.R.pop(r.randrange(len(X.R)))
+            others = sorted(v for v in X.V if v != X.S)
+            if others and r.random() < 0.5:
+                X.S = others[0]
+        else:
+            return False
+    except Exception:
+        return False
+    return True
